@@ -305,6 +305,16 @@ Inductive published (f s : Z) : list status -> status -> Prop :=
     published f s rs before -> flip_rule f s (rs ++ [x]) x before after ->
     published f s (rs ++ [x]) after.
 
+(* The callbacks of the crate feature `tracing` (on_check_failed when a check timed out, on_health_change when
+   the status changed) only observe: each is handed the state before / the result / the state after and yields
+   an outcome (returned, panicked, panicked with a payload whose destructor panics - any value of O) that the
+   check task contains (fix 19290c9 for on_check_failed; on_health_change runs after the status is written). *)
+Definition run_observed {O} (obs : rstate -> status -> rstate -> list O) (f s : Z) (rs : list status)
+  : rstate * list O :=
+  fold_left (fun (acc : rstate * list O) x =>
+               let r' := apply_result f s (fst acc) x in (r', snd acc ++ obs (fst acc) x r'))
+            rs (rinit, []).
+
 (* ---------------- script interface ----------------
    script = [n_res; failure_threshold; success_threshold; interval; timeout; initial_delay; strategy + 16 * route;
              R; n_ev; (status, delay)*R per resource; (op, arg)*n_ev]
@@ -362,8 +372,9 @@ Definition run_script (s : list Z) : list Z :=
                       (seq 0 r)) (seq 0 n) in
   let evs := map (fun j => (zn s (9 + 2 * n * r + 2 * j), zn s (9 + 2 * n * r + 2 * j + 1)))
                  (seq 0 n_ev) in
-  (* zn s 6 = strategy + 16 * configuration route (the route - wrapper setters, HealthCheckConfig::builder()
-     + with_config, with_config then setters, setters then with_config - must not matter) *)
+  (* zn s 6 = strategy + 16 * configuration route + 64 * callback behaviour (the route - wrapper setters, HealthCheckConfig::builder()
+     + with_config, with_config then setters, setters then with_config - and whether the registered tracing
+     callbacks panic must not matter) *)
   run_events c (strategy_of (zn s 6 mod 16)) evs (start c scripts) 0 0.
 
 (* ---------------- vocabulary for trace-level statements (definitions only) ---------------- *)
